@@ -220,6 +220,10 @@ func (s *Sched) Poll(t *Thr, wait time.Duration) (label string, ok bool) {
 
 // Finish lets every thread run to completion (hooks pass through) and detaches the scheduler.
 func (s *Sched) Finish() {
+	wait := s.Timeout
+	if wait < 5*time.Second {
+		wait = 5 * time.Second // releasing is not a probe: give loaded machines time before calling a thread stuck
+	}
 	s.mu.Lock()
 	s.free = true
 	ts := make([]*Thr, 0, len(s.Threads))
@@ -234,7 +238,7 @@ func (s *Sched) Finish() {
 		if t.At != "blocked" && t.At != "" {
 			select {
 			case t.resume <- struct{}{}:
-			case <-time.After(s.Timeout):
+			case <-time.After(wait):
 			}
 		}
 	}
@@ -242,7 +246,7 @@ func (s *Sched) Finish() {
 		if t.Done || t.gid == 0 {
 			continue
 		}
-		deadline := time.After(s.Timeout)
+		deadline := time.After(wait)
 	loop:
 		for {
 			select {
